@@ -154,8 +154,9 @@ def load(config="all", repo=None, crate="loom", target_dir=None):
             j = json.load(fh)
         inlined = {}
         if not os.environ.get("VERIF_NO_INLINE"):
-            from .normalize import inline_helpers
-            inlined = inline_helpers(j)
+            from .normalize import normalize
+            inlined = normalize(j)
         _loaded[p] = Program(j, config=config, path=p)
         _loaded[p].inlined = inlined
+        _loaded[p].renamed = j.get("renamed", {})
     return _loaded[p]
